@@ -40,6 +40,11 @@ func readVolume(volumeBytes []byte) (volume, error) {
 	// TODO: Check count of files saved in volume set, and other
 	// offsets and bytes.
 
+	// Each file entry takes up more than its header.
+	if header.FileCount > uint64(buf.Len())/sizeOfFileEntryHeader() {
+		return volume{}, errors.New("file count too big")
+	}
+
 	entries := make([]fileEntry, header.FileCount)
 	var setHashInput []byte
 	for i := uint64(0); i < header.FileCount; i++ {
